@@ -411,14 +411,6 @@ func vfC01Run(t *testing.T, dir string, c *vfC01Case) (obs []vfC01Obs, firedTota
 	return
 }
 
-func vfC01Norm(rr dns.RR) string {
-	c := dns.Copy(rr)
-	c.Header().Name = strings.ToLower(c.Header().Name)
-	c.Header().Ttl = 0
-	c.Header().Rdlength = 0
-	return strings.ToLower(c.String())
-}
-
 // vfC01Expected lists the records ground truth allows in the answer section, and the subset that
 // must be present (the final RRset).
 func vfC01Expected(g vfworld.GTruth, qtype uint16) (allowed map[string]uint32, required []string) {
@@ -429,12 +421,12 @@ func vfC01Expected(g vfworld.GTruth, qtype uint16) (allowed map[string]uint32, r
 			for _, r := range s.Zone.RRset(s.Owner, dns.TypeCNAME) {
 				c := dns.Copy(r)
 				c.Header().Name = s.Name
-				allowed[vfC01Norm(c)] = r.Header().Ttl
+				allowed[vfNormRR(c)] = r.Header().Ttl
 			}
 		case dns.TypeDNAME:
 			for _, r := range s.Zone.RRset(s.Owner, dns.TypeDNAME) {
-				allowed[vfC01Norm(r)] = r.Header().Ttl
-				allowed[vfC01Norm(&dns.CNAME{Hdr: dns.RR_Header{Name: s.Name, Rrtype: dns.TypeCNAME, Class: dns.ClassINET}, Target: s.Target})] = r.Header().Ttl
+				allowed[vfNormRR(r)] = r.Header().Ttl
+				allowed[vfNormRR(&dns.CNAME{Hdr: dns.RR_Header{Name: s.Name, Rrtype: dns.TypeCNAME, Class: dns.ClassINET}, Target: s.Target})] = r.Header().Ttl
 			}
 		}
 	}
@@ -446,7 +438,7 @@ func vfC01Expected(g vfworld.GTruth, qtype uint16) (allowed map[string]uint32, r
 		for _, r := range g.Zone.RRset(owner, qtype) {
 			c := dns.Copy(r)
 			c.Header().Name = g.Name
-			k := vfC01Norm(c)
+			k := vfNormRR(c)
 			allowed[k] = r.Header().Ttl
 			required = append(required, k)
 		}
@@ -537,13 +529,13 @@ func vfC01Judge(c *vfC01Case, st vfC01Step, o vfC01Obs, tamperedBefore bool) (st
 			for _, r := range s.Zone.RRset(s.Owner, dns.TypeCNAME) {
 				c2 := dns.Copy(r)
 				c2.Header().Name = s.Name
-				stepOf[vfC01Norm(c2)] = i
+				stepOf[vfNormRR(c2)] = i
 			}
 		case dns.TypeDNAME:
 			for _, r := range s.Zone.RRset(s.Owner, dns.TypeDNAME) {
-				stepOf[vfC01Norm(r)] = i
+				stepOf[vfNormRR(r)] = i
 			}
-			stepOf[vfC01Norm(&dns.CNAME{Hdr: dns.RR_Header{Name: s.Name, Rrtype: dns.TypeCNAME, Class: dns.ClassINET}, Target: s.Target})] = i
+			stepOf[vfNormRR(&dns.CNAME{Hdr: dns.RR_Header{Name: s.Name, Rrtype: dns.TypeCNAME, Class: dns.ClassINET}, Target: s.Target})] = i
 		}
 	}
 	prefix, onlyAliases := 0, len(m.Answer) > 0
@@ -551,7 +543,7 @@ func vfC01Judge(c *vfC01Case, st vfC01Step, o vfC01Obs, tamperedBefore bool) (st
 		if rr.Header().Rrtype == dns.TypeRRSIG {
 			continue
 		}
-		if i, ok := stepOf[vfC01Norm(rr)]; ok {
+		if i, ok := stepOf[vfNormRR(rr)]; ok {
 			if i+1 > prefix {
 				prefix = i + 1
 			}
@@ -652,7 +644,7 @@ func vfC01Judge(c *vfC01Case, st vfC01Step, o vfC01Obs, tamperedBefore bool) (st
 			}
 			continue
 		}
-		k := vfC01Norm(rr)
+		k := vfNormRR(rr)
 		ttl, ok := allowed[k]
 		if !ok {
 			return fmt.Sprintf("answer holds %q, which no signer published for this question", rr.String()), cls
